@@ -48,9 +48,10 @@ type Sym struct{ Name string }
 
 type NilV struct{}
 
-// StructV / ArrV have value semantics: they are copied when loaded and stored.
+// StructV / ArrV have value semantics: they are copied when loaded and stored. The elements of an array are cells
+// of their own, so that a pointer to an element or a slice of the array aliases the array where it lives.
 type StructV struct{ F []AV }
-type ArrV struct{ E []AV }
+type ArrV struct{ C []*Obj }
 
 // Obj is one addressable cell.
 type Obj struct {
@@ -65,6 +66,7 @@ type Ptr struct {
 }
 
 type backing struct{ cells []*Obj }
+
 
 type SliceV struct {
 	B           *backing
@@ -98,6 +100,15 @@ type SeqV struct{ Items []AV }
 // BufV models a bytes.Buffer / strings.Builder.
 type BufV struct{ S []byte }
 
+// ExtFn is a function value supplied by the rule (a hook, a user's lazy generator): calling it goes to Interp.OnExt.
+type ExtFn struct{ Name string }
+
+// FramesV models a *runtime.Frames over frame indices of the interpreter's own call stack.
+type FramesV struct {
+	idx []int
+	pos int
+}
+
 type Interp struct {
 	c            *Ctx
 	Steps        int
@@ -106,12 +117,25 @@ type Interp struct {
 	Ext          func(ip *Interp, callee *ssa.Function, args []AV) (AV, bool)
 	AntiStable   bool // sort models place equal elements in reverse input order
 	MapOrderUsed bool // a map was iterated: the result may depend on iteration order
-	depth        int
-	nextID       int
+	// OnExt is called when an ExtFn value is called.
+	OnExt func(ip *Interp, name string, args []AV) AV
+	// OnInvoke is called for an interface method call whose receiver is an opaque symbol.
+	OnInvoke func(ip *Interp, recv *Sym, method string, args []AV) (AV, bool)
+	// Stack is the interpreter's call stack (innermost last); UserFrames names synthetic frames below it.
+	Stack      []*ssa.Function
+	UserFrames []string
+	Pools      map[*Obj][]AV          // sync.Pool contents by pool object
+	PoolNew    map[*Obj]*ssa.Function // sync.Pool.New by pool object
+	SyncMaps   map[*Obj]*MapV         // sync.Map contents by map object
+	Trace      []string               // notable library calls, in order
+	pcOf       map[string]int
+	pcName     []string
+	depth      int
+	nextID     int
 }
 
 func newInterp(c *Ctx) *Interp {
-	return &Interp{c: c, MaxSteps: 200000, Globals: map[*ssa.Global]*Obj{}}
+	return &Interp{c: c, MaxSteps: 200000, Globals: map[*ssa.Global]*Obj{}, Pools: map[*Obj][]AV{}, PoolNew: map[*Obj]*ssa.Function{}, SyncMaps: map[*Obj]*MapV{}}
 }
 
 func (ip *Interp) newObj(v AV) *Obj {
@@ -180,7 +204,7 @@ func avString(v AV) string {
 		}
 		return "{" + strings.Join(ss, ",") + "}"
 	case *ArrV:
-		return fmt.Sprintf("[%d]…", len(x.E))
+		return fmt.Sprintf("[%d]…", len(x.C))
 	case *Ptr:
 		return fmt.Sprintf("&obj%d%v", x.O.id, x.Path)
 	case *SliceV:
@@ -210,9 +234,9 @@ func copyVal(v AV) AV {
 		}
 		return n
 	case *ArrV:
-		n := &ArrV{E: make([]AV, len(x.E))}
-		for i, f := range x.E {
-			n.E[i] = copyVal(f)
+		n := &ArrV{C: make([]*Obj, len(x.C))}
+		for i, c := range x.C {
+			n.C[i] = &Obj{id: -1, V: copyVal(c.V)}
 		}
 		return n
 	}
@@ -249,9 +273,9 @@ func (ip *Interp) zeroOf(t types.Type) AV {
 		if u.Len() > 4096 {
 			ood("large array")
 		}
-		a := &ArrV{E: make([]AV, u.Len())}
-		for i := range a.E {
-			a.E[i] = ip.zeroOf(u.Elem())
+		a := &ArrV{C: make([]*Obj, u.Len())}
+		for i := range a.C {
+			a.C[i] = ip.newObj(ip.zeroOf(u.Elem()))
 		}
 		return a
 	case *types.Tuple:
@@ -272,21 +296,27 @@ func isNamed(t types.Type, pkg, name string) bool {
 
 // ---- memory
 
-func (p *Ptr) load() AV {
+// peek returns the value a pointer addresses without copying it (the caller must not keep it beyond the next store).
+func (p *Ptr) peek() AV {
 	v := p.O.V
 	for _, i := range p.Path {
 		switch x := v.(type) {
 		case *StructV:
 			v = x.F[i]
 		case *ArrV:
-			if i < 0 || i >= len(x.E) {
+			if i < 0 || i >= len(x.C) {
 				rtPanic("index out of range")
 			}
-			v = x.E[i]
+			v = x.C[i].V
 		default:
 			ood("path into %s", avString(v))
 		}
 	}
+	return v
+}
+
+func (p *Ptr) load() AV {
+	v := p.peek()
 	if v == nil {
 		ood("read of an unmodelled memory cell")
 	}
@@ -310,14 +340,14 @@ func (p *Ptr) store(nv AV) {
 			}
 			v = x.F[i]
 		case *ArrV:
-			if i < 0 || i >= len(x.E) {
+			if i < 0 || i >= len(x.C) {
 				rtPanic("index out of range")
 			}
 			if last {
-				x.E[i] = nv
+				x.C[i].V = nv
 				return
 			}
-			v = x.E[i]
+			v = x.C[i].V
 		default:
 			ood("path into %s", avString(v))
 		}
@@ -368,7 +398,7 @@ func avEqual(a, b AV) bool {
 		switch y := b.(type) {
 		case NilV:
 			return true
-		case *Sym, *Ptr, *SliceV, *Closure, *IfaceV, *MapV:
+		case *Sym, *Ptr, *SliceV, *Closure, *IfaceV, *MapV, *ExtFn, *SeqV:
 			_ = y
 			return false
 		}
@@ -417,15 +447,15 @@ func avEqual(a, b AV) bool {
 			return true
 		}
 	case *ArrV:
-		if y, ok := b.(*ArrV); ok && len(x.E) == len(y.E) {
-			for i := range x.E {
-				if !avEqual(x.E[i], y.E[i]) {
+		if y, ok := b.(*ArrV); ok && len(x.C) == len(y.C) {
+			for i := range x.C {
+				if !avEqual(x.C[i].V, y.C[i].V) {
 					return false
 				}
 			}
 			return true
 		}
-	case *SliceV, *MapV, *Closure:
+	case *SliceV, *MapV, *Closure, *ExtFn, *SeqV:
 		if _, ok := b.(NilV); ok {
 			return false
 		}
@@ -493,7 +523,8 @@ func (ip *Interp) call(fn *ssa.Function, args []AV, free []AV) AV {
 		ood("no body for %s", fn.String())
 	}
 	ip.depth++
-	defer func() { ip.depth-- }()
+	ip.Stack = append(ip.Stack, fn)
+	defer func() { ip.depth--; ip.Stack = ip.Stack[:len(ip.Stack)-1] }()
 	if ip.depth > 60 {
 		ood("call depth")
 	}
@@ -632,10 +663,15 @@ func (ip *Interp) apply(cc *ssa.CallCommon, fv AV, args []AV) AV {
 			if _, isNil := fv.(NilV); isNil {
 				rtPanic("method call on nil interface")
 			}
-			if s, isSym := fv.(*Sym); isSym && ip.Ext != nil {
-				_ = s
-			}
 			ood("interface method %s on %s", cc.Method.Name(), avString(fv))
+		}
+		if sym, isSym := iv.V.(*Sym); isSym {
+			if ip.OnInvoke != nil {
+				if r, ok := ip.OnInvoke(ip, sym, cc.Method.Name(), args); ok {
+					return r
+				}
+			}
+			ood("method %s of the opaque value %s", cc.Method.Name(), sym.Name)
 		}
 		m := ip.c.Prog.LookupMethod(iv.T, cc.Method.Pkg(), cc.Method.Name())
 		if m == nil {
@@ -649,6 +685,11 @@ func (ip *Interp) apply(cc *ssa.CallCommon, fv AV, args []AV) AV {
 	switch f := fv.(type) {
 	case *Closure:
 		return ip.callFn(f.Fn, args, f.Free)
+	case *ExtFn:
+		if ip.OnExt == nil {
+			ood("external function %s", f.Name)
+		}
+		return ip.OnExt(ip, f.Name, args)
 	case *SeqV:
 		// calling an iter.Seq with a yield function
 		if len(args) != 1 {
@@ -693,7 +734,8 @@ func (ip *Interp) callFn(fn *ssa.Function, args []AV, free []AV) AV {
 func (ip *Interp) value(fr *aframe, v ssa.Value) AV {
 	switch x := v.(type) {
 	case *ssa.Alloc:
-		return &Ptr{O: ip.newObj(ip.zeroOf(x.Type().Underlying().(*types.Pointer).Elem()))}
+		et := x.Type().Underlying().(*types.Pointer).Elem()
+		return &Ptr{O: ip.newObj(ip.zeroOf(et))}
 	case *ssa.UnOp:
 		a := ip.operand(fr, x.X)
 		switch x.Op {
@@ -787,14 +829,14 @@ func (ip *Interp) value(fr *aframe, v ssa.Value) AV {
 		case NilV:
 			rtPanic("index out of range [%d] with length 0", i)
 		case *Ptr: // pointer to array
-			arr, ok := s.load().(*ArrV)
+			arr, ok := s.peek().(*ArrV)
 			if !ok {
 				ood("index of non-array")
 			}
-			if i < 0 || i >= len(arr.E) {
-				rtPanic("index out of range [%d] with length %d", i, len(arr.E))
+			if i < 0 || i >= len(arr.C) {
+				rtPanic("index out of range [%d] with length %d", i, len(arr.C))
 			}
-			return &Ptr{O: s.O, Path: append(append([]int{}, s.Path...), i)}
+			return &Ptr{O: arr.C[i]}
 		}
 		ood("index address of %s", avString(base))
 	case *ssa.Index:
@@ -802,10 +844,10 @@ func (ip *Interp) value(fr *aframe, v ssa.Value) AV {
 		i := int(avInt(ip.operand(fr, x.Index)))
 		switch s := base.(type) {
 		case *ArrV:
-			if i < 0 || i >= len(s.E) {
+			if i < 0 || i >= len(s.C) {
 				rtPanic("index out of range")
 			}
-			return copyVal(s.E[i])
+			return copyVal(s.C[i].V)
 		case constant.Value:
 			str := avStr(s)
 			if i < 0 || i >= len(str) {
@@ -877,13 +919,17 @@ func (ip *Interp) value(fr *aframe, v ssa.Value) AV {
 			}
 			return NilV{}
 		case *Ptr:
-			arr, ok := s.load().(*ArrV)
+			arr, ok := s.peek().(*ArrV)
 			if !ok {
-				ood("slice of non-array pointer")
+				ood("slice of a pointer to %s", avString(s.peek()))
 			}
-			// materialise cells that alias the array: not needed by the module; copy semantics would be wrong
-			_ = arr
-			ood("slice of an array")
+			n := len(arr.C)
+			lo, hi := get(x.Low, 0), get(x.High, n)
+			mx := get(x.Max, n)
+			if lo < 0 || hi > n || lo > hi || mx > n || hi > mx {
+				rtPanic("slice bounds out of range [%d:%d] with capacity %d", lo, hi, n)
+			}
+			return &SliceV{B: &backing{cells: arr.C}, Lo: lo, Hi: hi, Cap: mx}
 		}
 		ood("slice of %s", avString(base))
 	case *ssa.MakeSlice:
@@ -1109,7 +1155,7 @@ func (ip *Interp) builtin(name string, args []AV, cc *ssa.CallCommon) AV {
 		case *MapV:
 			return kInt(int64(len(x.M)))
 		case *ArrV:
-			return kInt(int64(len(x.E)))
+			return kInt(int64(len(x.C)))
 		}
 		return kInt(int64(sliceLen(args[0])))
 	case "cap":
@@ -1228,10 +1274,173 @@ func avStrings(v AV) []string {
 	return nil
 }
 
+// frameName names the frame k levels above the function currently executing (0 = that function itself); below the
+// interpreter's own stack come the synthetic user frames, innermost first.
+func (ip *Interp) frameName(k int) (string, bool) {
+	i := len(ip.Stack) - 1 - k
+	if i >= 0 {
+		return "frame:" + fname(ip.Stack[i]), true
+	}
+	u := -i - 1
+	if u < len(ip.UserFrames) {
+		return "frame:" + ip.UserFrames[u], true
+	}
+	return "", false
+}
+
+// pcFor gives each frame (by name) a stable program-counter value.
+func (ip *Interp) pcFor(name string) int {
+	if ip.pcOf == nil {
+		ip.pcOf = map[string]int{}
+	}
+	if id, ok := ip.pcOf[name]; ok {
+		return id
+	}
+	id := 1000 + len(ip.pcName)
+	ip.pcOf[name] = id
+	ip.pcName = append(ip.pcName, name)
+	return id
+}
+
+func (ip *Interp) frameStruct(t types.Type, name string) AV {
+	fv := ip.zeroOf(t).(*StructV)
+	st := t.Underlying().(*types.Struct)
+	for i := 0; i < st.NumFields(); i++ {
+		switch st.Field(i).Name() {
+		case "File":
+			fv.F[i] = kStr(name)
+		case "Line":
+			fv.F[i] = kInt(1)
+		case "Function":
+			fv.F[i] = kStr(name)
+		}
+	}
+	return fv
+}
+
 func (ip *Interp) model(fn *ssa.Function, args []AV) (res AV, ok bool) {
 	name := fn.String()
 	if fn.Origin() != nil {
 		name = fn.Origin().String()
+	}
+	switch name {
+	case "runtime.Caller":
+		// frame 0 = the function calling runtime.Caller
+		nm, ok := ip.frameName(int(avInt(args[0])))
+		if !ok {
+			return TupleV{kInt(0), kStr(""), kInt(0), kBool(false)}, true
+		}
+		ip.Trace = append(ip.Trace, "runtime.Caller→"+nm)
+		return TupleV{kInt(1), kStr(nm), kInt(1), kBool(true)}, true
+	case "runtime.Callers":
+		// skip 0 = Callers itself, 1 = the function calling Callers
+		sv, isS := args[1].(*SliceV)
+		if !isS {
+			return kInt(0), true
+		}
+		skip := int(avInt(args[0]))
+		n := 0
+		for i := sv.Lo; i < sv.Hi; i++ {
+			k := skip - 1 + n
+			if skip == 0 {
+				ood("runtime.Callers(0, …)")
+			}
+			if _, ok := ip.frameName(k); !ok {
+				break
+			}
+			nm, _ := ip.frameName(k)
+			sv.B.cells[i].V = kInt(int64(ip.pcFor(nm)))
+			n++
+		}
+		return kInt(int64(n)), true
+	case "runtime.CallersFrames":
+		sv, isS := args[0].(*SliceV)
+		f := &FramesV{}
+		if isS {
+			for _, e := range sv.elems() {
+				f.idx = append(f.idx, int(avInt(e)))
+			}
+		}
+		return &IfaceV{T: fn.Signature.Results().At(0).Type(), V: f}, true
+	case "(*runtime.Frames).Next":
+		iv, _ := args[0].(*IfaceV)
+		var f *FramesV
+		if iv != nil {
+			f, _ = iv.V.(*FramesV)
+		}
+		ft := fn.Signature.Results().At(0).Type()
+		if f == nil || f.pos >= len(f.idx) {
+			return TupleV{ip.zeroOf(ft), kBool(false)}, true
+		}
+		pc := f.idx[f.pos]
+		f.pos++
+		nm := ""
+		if i := pc - 1000; i >= 0 && i < len(ip.pcName) {
+			nm = ip.pcName[i]
+		}
+		ip.Trace = append(ip.Trace, "CallersFrames→"+nm)
+		return TupleV{ip.frameStruct(ft, nm), kBool(f.pos < len(f.idx))}, true
+	case "(*sync.Pool).Get":
+		p, isP := args[0].(*Ptr)
+		if !isP {
+			ood("sync.Pool receiver")
+		}
+		if items := ip.Pools[p.O]; len(items) > 0 {
+			it := items[len(items)-1]
+			ip.Pools[p.O] = items[:len(items)-1]
+			ip.Trace = append(ip.Trace, "pool.Get(reused)")
+			return it, true
+		}
+		ip.Trace = append(ip.Trace, "pool.Get(new)")
+		if nf := ip.PoolNew[p.O]; nf != nil {
+			return ip.callFn(nf, nil, nil), true
+		}
+		return NilV{}, true
+	case "(*sync.Pool).Put":
+		p, isP := args[0].(*Ptr)
+		if !isP {
+			ood("sync.Pool receiver")
+		}
+		ip.Pools[p.O] = append(ip.Pools[p.O], args[1])
+		ip.Trace = append(ip.Trace, "pool.Put")
+		return TupleV{}, true
+	case "(*sync.Map).Load", "(*sync.Map).Store", "(*sync.Map).LoadOrStore":
+		p, isP := args[0].(*Ptr)
+		if !isP {
+			ood("sync.Map receiver")
+		}
+		m := ip.SyncMaps[p.O]
+		if m == nil {
+			m = &MapV{M: map[string]AV{}}
+			ip.SyncMaps[p.O] = m
+		}
+		k := mapKey(args[1])
+		switch fn.Name() {
+		case "Load":
+			v, ok := m.M[k]
+			if !ok {
+				return TupleV{NilV{}, kBool(false)}, true
+			}
+			return TupleV{v, kBool(true)}, true
+		case "Store":
+			m.M[k] = args[2]
+			return TupleV{}, true
+		default:
+			if v, ok := m.M[k]; ok {
+				return TupleV{v, kBool(true)}, true
+			}
+			m.M[k] = args[2]
+			return TupleV{args[2], kBool(false)}, true
+		}
+	case "time.Now":
+		ip.Trace = append(ip.Trace, "time.Now")
+		return &Sym{Name: "time.Now"}, true
+	case "fmt.Sprintf":
+		ip.Trace = append(ip.Trace, "fmt.Sprintf")
+		if f, ok := args[0].(constant.Value); ok && f.Kind() == constant.String {
+			return kStr("sprintf(" + constant.StringVal(f) + ")"), true
+		}
+		return kStr("sprintf(?)"), true
 	}
 	s := func(i int) string { return avStr(args[i]) }
 	n := func(i int) int { return int(avInt(args[i])) }
@@ -1493,7 +1702,7 @@ func peekBuf(p *Ptr) (*BufV, bool) {
 		case *StructV:
 			v = x.F[i]
 		case *ArrV:
-			v = x.E[i]
+			v = x.C[i].V
 		default:
 			return nil, false
 		}
